@@ -122,11 +122,14 @@ class C02(Prop):
         dev_id, key = gen.device_id(r), gen.device_key(r)
         zone = env.ZONES[i % len(env.ZONES)]
         now = self._now_for(zone, r, case["seed"]) + r.choice([0.0, 0.3, 0.7])
-        self.dev.responder = td.auto_responder(family="shutter", rnd=r)
+        from ..ref import replies as _rp
+
+        recs = [_rp.schedule_record(k2, r.choice([0, 2, 0x54, 0xFE]), 1_700_000_000 + k2 * 3600, 1_700_003_600 + k2 * 3600) for k2 in range(r.randrange(0, 9))]
+        self.dev.responder = td.auto_responder(family="shutter", rnd=r, schedule_records=recs)
         clock.set_zone(zone)
         world = {"zone": zone, "now": now}
         if t == 1:
-            plan = [("turn_on", {"minutes": 0}), ("turn_off", {}), ("turn_on_timer", None), ("turn_on_timer", None),
+            plan = [("turn_on", {"minutes": 0}), ("turn_off", {}), ("turn_off", None), ("turn_on_timer", None), ("turn_on_timer", None),
                     ("set_auto_shutdown", None), ("set_auto_shutdown", None), ("set_device_name", None), ("set_device_name", None),
                     ("get_schedules", {}), ("delete_schedule", {"slot": str(i % 8)}),
                     ("create_schedule", {"start": f"{(i % 1440) // 60:02d}:{(i % 1440) % 60:02d}",
